@@ -3,6 +3,9 @@ pub mod prng;
 pub mod rdr;
 pub mod wire;
 pub mod c_rdr;
+pub mod api;
+pub mod c_api;
+pub mod shard;
 
 use std::path::PathBuf;
 
@@ -33,9 +36,19 @@ pub fn main_entry() -> i32 {
   let args = parse_args();
   match args.id.as_str() {
     "C01" | "C03" | "C05" => c_rdr::run(&args),
+    "C08" => c_api::run_c08(&args),
+    "C09" => c_api::run_c09(&args),
     other => {
       eprintln!("unknown check {other}");
       2
     }
   }
+}
+
+/// case index recorded in a replay file (all engines store it under replay.case.index)
+pub fn replay_index(args: &Args) -> Option<u64> {
+  let p = args.replay.as_ref()?;
+  let s = std::fs::read_to_string(p).ok()?;
+  let v: serde_json::Value = serde_json::from_str(&s).ok()?;
+  v["replay"]["case"]["index"].as_u64().or_else(|| v["replay"]["case"]["case"]["index"].as_u64())
 }
